@@ -600,27 +600,41 @@ func gen(t *rapid.T) Case {
 	gg := &g{t: t, feat: map[string]int{}}
 	prog := prelude()
 	nroots := gg.n(1, 3, "roots")
-	var slotRoots []int
+	var roots []*N
+	var isSlot []bool
 	var slotInfo []string
 	for i := 0; i < nroots; i++ {
 		if gg.n(0, 6, "slotroot") == 0 {
 			// an earlier operand read from a slot that a later operand (or the callee) stores into
-			if len(slotRoots) == 0 {
-				prog = append(prog, slotPrelude()...)
-			}
-			slotRoots = append(slotRoots, len(prog))
 			gg.cur = nil
-			prog = append(prog, &N{K: "try", Ss: [][]*N{gg.slotRoot(), {{K: "expr", Ns: []*N{P(int64(9000 + i))}}}}})
+			roots = append(roots, &N{K: "try", Ss: [][]*N{gg.slotRoot(), {{K: "expr", Ns: []*N{P(int64(9000 + i))}}}}})
+			isSlot = append(isSlot, true)
 			slotInfo = append(slotInfo, slotSig(gg.cur))
 			continue
 		}
 		r := gg.root()
+		isSlot = append(isSlot, false)
 		if r.K == "defer" || r.K == "var" {
-			prog = append(prog, r)
+			roots = append(roots, r)
 			continue
 		}
 		// isolate raising roots so that the following statements still run
-		prog = append(prog, &N{K: "try", Ss: [][]*N{{r}, {{K: "expr", Ns: []*N{P(int64(9000 + i))}}}}})
+		roots = append(roots, &N{K: "try", Ss: [][]*N{{r}, {{K: "expr", Ns: []*N{P(int64(9000 + i))}}}}})
+	}
+	// the containers the slot patterns use are bound after the prelude, before the first root
+	var slotStmts []*N
+	for i, r := range roots {
+		if isSlot[i] {
+			slotStmts = append(slotStmts, r)
+		}
+	}
+	prog = append(prog, slotPrelude(slotStmts)...)
+	var slotRoots []int
+	for i, r := range roots {
+		if isSlot[i] {
+			slotRoots = append(slotRoots, len(prog))
+		}
+		prog = append(prog, r)
 	}
 	prog = append(prog, &N{K: "ret", Ns: []*N{{K: "list", Ns: []*N{Id("x"), Id("y"), Id("z"), Id("acc"), gg.anyE(2)}}}})
 	return Case{Prog: prog, GenFeat: gg.feat, SlotRoots: slotRoots, SlotInfo: slotInfo}
